@@ -333,14 +333,36 @@ func (c *c17) deliver(ch *kernel.Chooser) string {
 	_, unauthBefore, _ := c.rp.Snapshot()
 	cbBefore, _, _ := c.rp.Snapshot()
 	before := w.Net.Len()
+	// now and then the provider's token endpoint cannot be reached or fails while the RP handles this callback; the
+	// browser may come back with the same callback later (a retry is just another delivery)
+	tokenFault := ""
+	if ch.Bool(1, 8) {
+		tokenFault = ch.Pick("drop-req", "drop-resp", "500")
+		w.Net.Fault = func(ex *world.Exchange) string {
+			if ex.From == "rp:"+c.client && ex.Path == "/oauth/token" && tokenFault != "500" {
+				return tokenFault
+			}
+			return ""
+		}
+		if tokenFault == "500" {
+			w.Net.Corrupt = func(ex *world.Exchange) (int, string, bool) {
+				if ex.From == "rp:"+c.client && ex.Path == "/oauth/token" {
+					return 500, `{"error":"server_error"}`, true
+				}
+				return 0, "", false
+			}
+		}
+		c.o.Fault("token-endpoint-" + tokenFault)
+	}
 	var r *world.Resp
 	if useJar {
 		r = b.Get(cbURL)
 	} else {
 		r = b.GetWithCookies(cbURL, presented)
 	}
+	w.Net.Fault, w.Net.Corrupt = nil, nil
 	a.delivered++
-	desc := fmt.Sprintf("deliver #%d (%s) in %s age=%v -> %d", a.n, variant, b.Name, time.Since(a.startedAt), r.Status)
+	desc := fmt.Sprintf("deliver #%d (%s) in %s age=%v token-endpoint-fault=%q -> %d", a.n, variant, b.Name, time.Since(a.startedAt), tokenFault, r.Status)
 	// what did the RP send to the provider while handling this callback?
 	var tokenReqs []*world.Exchange
 	for _, ex := range w.Net.Since(before) {
@@ -371,6 +393,12 @@ func (c *c17) deliver(ch *kernel.Chooser) string {
 			if !pkceOK || sent != pkcePlain {
 				c.viol("pkce", "rp/callback-verifier", "%s: code_verifier %q sent, the presented pkce cookie holds %q (valid=%v)", desc, sent, pkcePlain, pkceOK)
 			}
+			// ... and it is the verifier whose S256 went into the authorization URL that carried this state
+			for _, at := range c.attempts {
+				if at.state == stateParam && at.verifier != "" && sent != at.verifier {
+					c.viol("pkce", "rp/callback-verifier-of-attempt", "%s: code_verifier %q sent, the authorization URL with state %q carried the challenge of verifier %q", desc, sent, stateParam, at.verifier)
+				}
+			}
 		}
 	} else {
 		c.o.Probe("callback-refused")
@@ -389,7 +417,7 @@ func (c *c17) deliver(ch *kernel.Chooser) string {
 		}
 	}
 	// progress: the honest, first delivery in the right browser with fresh cookies completes the login
-	if variant == "honest" && a.delivered == 1 && c.latestInBrowser(a) && (c.maxAge == 0 || time.Since(a.startedAt) < time.Duration(c.maxAge-2)*time.Second) {
+	if variant == "honest" && tokenFault == "" && a.delivered == 1 && c.latestInBrowser(a) && (c.maxAge == 0 || time.Since(a.startedAt) < time.Duration(c.maxAge-2)*time.Second) {
 		if len(cbAfter) == len(cbBefore) {
 			c.o.Probe("honest-login-failed")
 			c.o.Logf("  honest login failed: %d %s", r.Status, firstLine(r.Body))
